@@ -93,6 +93,10 @@ def units(tier):
         for h in HANDLERS:
             for d in (DOWN if tier != 'quick' else ['scan', 'count', 'last', 'to_list']):
                 out.append({'fam': 'api', 'op': o, 'handler': h, 'down': d, 'L': L})
+    for o in OPS:
+        for h in HANDLERS:
+            for parent in THROUGH:
+                out.append({'fam': 'through', 'op': o, 'handler': h, 'parent': parent, 'L': 4 if tier == 'quick' else 5})
     d = 6 if tier == 'quick' else 7
     for o in OPS:
         for h in HANDLERS[1:]:
@@ -101,7 +105,23 @@ def units(tier):
     return out
 
 
+THROUGH = {
+    'group_by': lambda inner: [['group_by', 'mod10_div2x', inner]],
+    'roll21': lambda inner: [['roll', 2, 1, inner]],
+    'roll22': lambda inner: [['roll', 2, 2, inner]],
+    'split': lambda inner: [['split', 'tens_even', inner]],
+    'tsplit': lambda inner: [['time_split', None, None, 'tens_even', True, inner, 'ident']],
+}
+opspecs.FUNCS.setdefault('mod10_div2x', lambda x: (x // 10) % 2)
+opspecs.FUNCS.setdefault('tens_even', lambda x: (x // 10) % 2 == 0)
+
+
 def cases(unit):
+    if unit['fam'] == 'through':
+        for n in range(1, unit['L'] + 1):
+            for fs in spaces.subsets(n):
+                yield {'fam': 'through', 'op': unit['op'], 'handler': unit['handler'], 'parent': unit['parent'], 'n': n, 'fail': list(fs)}
+        return
     if unit['fam'] == 'api':
         for order in orders(unit['L']):
             for fs in spaces.subsets(len(order)):
@@ -147,9 +167,81 @@ def build_pipeline(case, probe, states=None):
     return ops, dead
 
 
+def run_through(case, acc):
+    """[OP, HANDLER, parent(DOWN)] under with_memory_store: the mux error is produced in front of a higher-order
+    operator; handled directly behind the operator the stream continues as if the item were absent, unhandled it
+    surfaces as on_error of the subscriber after the outputs that precede the failure."""
+    star = case['op'] == 'starmap'
+    fail = set(case['fail'])
+    n = case['n']
+    h = case['handler']
+    items = []
+    for i in range(n):
+        base = 10 * i
+        items.append((base, 1 if i in fail else 0) if star else base + (1 if i in fail else 0))
+    probe = []
+    ops, dead = build_pipeline(dict(case, down='none'), probe)
+    inner_spec = [['to_list']]
+    # values reaching the parent: map -> x+1000 etc.; use an order-insensitive but value-sensitive inner pipeline
+    parent_spec = THROUGH[case['parent']](inner_spec)
+    ops = ops + opspecs.build(parent_spec)
+    store = new_store()
+    sink = Sink()
+    sink.subscribe_to(rx.from_(items).pipe(rs.state.with_store(store, ops)))
+    acc.evals += 1
+    acc.events += n + 1
+    acc.traces += 1
+    m = opspecs.model(parent_spec)
+    om = OpModel(case['op'])
+    exp = []
+    first_fail = min(fail) if fail else None
+    broke = False
+    for i, x in enumerate(items):
+        if i in fail:
+            if h == 'none':
+                broke = True
+                break
+            if h == 'map':
+                exp.extend(m.item(_mapped(ValueError(x))))
+            continue
+        for y in om.item(x):
+            exp.extend(m.item(y))
+    if not broke:
+        exp.extend(m.end())
+    out = []
+    if broke:
+        bad = items[first_fail]
+        if sink.error is None:
+            out.append(viol(case, 'through-%s-unhandled-error-not-surfaced' % case['parent'], {'items': items, 'status': sink.status()}))
+        elif not (isinstance(sink.error, ValueError) and sink.error.args and sink.error.args[0] == bad):
+            out.append(viol(case, 'through-%s-wrong-exception-surfaced' % case['parent'], {'items': items, 'error': repr(sink.error)}))
+    else:
+        sp = harness.status_problem(sink)
+        if sp:
+            out.append(viol(case, 'through-%s-%s' % (case['parent'], sp), {'items': items, 'error': repr(sink.error)}))
+    if case['parent'] == 'tsplit':      # windows that time_split opens eagerly and that stay empty are not specified
+        exp = [w for w in exp if w != []]
+        sink.items = [w for w in sink.items if w != []]
+    kind = harness.diff_kind(exp, sink.items)
+    if kind:
+        out.append(viol(case, 'through-%s-main-output-%s' % (case['parent'], kind),
+                        {'items': items, 'failing_positions': sorted(fail), 'expected': exp, 'observed': sink.items}))
+    if h == 'router':
+        exp_dead = [items[i] for i in sorted(fail)]
+        if dead['items'] != exp_dead or dead['completed'] != 1:
+            out.append(viol(case, 'through-%s-dead-letter' % case['parent'], {'items': items, 'expected': exp_dead, 'observed': dead['items'],
+                                                                             'completed': dead['completed']}))
+    acc.outcomes.add(fast_hash(repr((case['op'], h, case['parent'], sink.items, sink.status()))))
+    if fail and len(fail) < n:
+        acc.nontrivial.add(fast_hash(repr(case)))
+    return out
+
+
 def run_case(case, acc):
     if case['fam'] == 'raw':
         return run_raw(case, acc)
+    if case['fam'] == 'through':
+        return run_through(case, acc)
     order, fail = case['order'], set(case['fail'])
     star = case['op'] == 'starmap'
     pos = {}
